@@ -680,7 +680,11 @@ func genFailedReorgUnflushed(t *rapid.T) Case {
 	depth := rapid.IntRange(1, k).Draw(t, "depth")
 	badAt := rapid.IntRange(0, depth).Draw(t, "bad-at")
 	viol := rapid.SampledFrom([]string{"bad_script", "missing_txid", "in_below_out", "dup_in_block"}).Draw(t, "viol")
-	for i := 0; i <= depth; i++ {
+	// sometimes the old branch grows by one block right after the bad block was stored (so that the two sit next to
+	// each other in the block index) and the queue is flushed: a crash from there on restarts with both loaded from disk
+	interleave := rapid.Bool().Draw(t, "interleave")
+	extra := 0
+	for i := 0; i <= depth+extra; i++ {
 		parent := -2
 		if i == 0 {
 			parent = depth
@@ -690,6 +694,13 @@ func genFailedReorgUnflushed(t *rapid.T) Case {
 			v = viol
 		}
 		c.Sim.Ops = append(c.Sim.Ops, blk(parent, v))
+		if i == badAt && interleave && i < depth {
+			c.Sim.Ops = append(c.Sim.Ops, blk(-1, ""))
+			extra = 1
+			if rapid.IntRange(0, 2).Draw(t, "flush-between") != 0 {
+				c.Sim.Ops = append(c.Sim.Ops, sim.Op{Kind: "flush"})
+			}
+		}
 	}
 	for i, n := 0, rapid.IntRange(1, 3).Draw(t, "after"); i < n; i++ {
 		c.Sim.Ops = append(c.Sim.Ops, blk(-1, ""))
@@ -711,7 +722,7 @@ func TestCrashFailedReorgUnflushed(t *testing.T) {
 		limit = 600
 	}
 	d := pbt.Direct{Name: "crash_failed_reorg"}
-	pbt.Check(t, pbt.Cfg{Name: "failed_reorg_unflushed", Quick: 16, Thorough: 160}, func(r *pbt.Run) {
+	pbt.Check(t, pbt.Cfg{Name: "failed_reorg_unflushed", Quick: 48, Thorough: 160}, func(r *pbt.Run) {
 		c := genFailedReorgUnflushed(r.T)
 		r.Case(c)
 		r.Class("failed-reorg-with-unflushed-side-blocks")
